@@ -1736,6 +1736,33 @@ impl Engine for E3 {
                 ];
             }
         }
+        // C10 dust family: a portfolio worth less than 1.0 (doubles are densest there) and a request a
+        // few doubles above everything the positions can raise, with almost no free cash
+        if matches!(focus, "C10" | "ALL") && prefix.is_empty() && w.one_in(60) {
+            let (px, n) = *w.pick(&[(0.1f64, 3.0f64), (0.1, 1.0), (0.25, 1.0), (0.3, 1.0), (0.3, 3.0), (0.7, 1.0), (0.1, 7.0)]);
+            let value = px * n;
+            let mut amt = value;
+            for _ in 0..w.range(1, 3) {
+                amt = f64::from_bits(amt.to_bits() + 1);
+            }
+            let sym = "PNY".to_string();
+            dataset = DatasetSpec {
+                name: "fake".to_string(),
+                symbols: vec![sym.clone()],
+                dates: vec![100, 101, 102, 103, 104, 105],
+                rows: (0..6).map(|_| vec![Some((X(px), X(px)))]).collect(),
+                by_symbol: false,
+            };
+            costs = Vec::new();
+            prefix = vec![
+                BOp::Deposit { amt: X(value + 0.05) },
+                BOp::Send { order: OrderSpec { typ: Typ::MarketBuy, symbol: sym, shares: X(n), price: None, preset_id: None } },
+                BOp::Check,
+                BOp::Check,
+                BOp::Liquidate { amt: X(amt) },
+                BOp::Check,
+            ];
+        }
         let mut case = Case { path, single, dataset, costs, ops: Vec::new() };
         // the builder's initial fetch uses the modes of the first op: fix them now
         let first_modes = gen_modes(&mut gen.rng, gen.cfg.eager_only, gen.cfg.delay_p);
@@ -1757,7 +1784,7 @@ impl Engine for E3 {
         }
         let mut first = true;
         if !prefix.is_empty() {
-            sim.ctx.bump("runs_c09_boundary_family");
+            sim.ctx.bump("runs_constructed_boundary_family");
         }
         let mut prefix = prefix.into_iter();
         while !sim.ctx.failed() && !sim.aborted {
